@@ -8,7 +8,7 @@ BigAllowed ==
     \/ /\ Len(layers) = 2 /\ base = "vswarm" /\ innerMtu = 64
        /\ layers[1].k \in {"u16", "str", "mbapp", "frag"} /\ layers[2].k \in {"mbapp", "u16"}
 CapFor == IF BigAllowed \/ SizeCap < 300000 THEN SizeCap ELSE 300000
-LayerJson(L) == [k |-> L.k, cfg |-> L.cfg, c |-> L.c]
+LayerJson(L) == [k |-> L.k, cfg |-> L.cfg, c |-> L.c, chans |-> L.chans, own |-> L.own, ord |-> L.ord, use |-> L.use]
 Dump == PrintT(ToJson(<<"CASE", [base |-> base, inner |-> innerMtu,
                                  layers |-> [i \in 1..Len(layers) |-> LayerJson(layers[i])],
                                  mtu |-> StackMtu(layers, innerMtu), hasask |-> HasAsk(layers),
